@@ -62,7 +62,7 @@ fn decompose(rng: &mut Rng, total: u64) -> Vec<u64> {
 /// A generated program: W1's valid operations batched into one text.
 thread_local! { static SUPPORTED: std::sync::Arc<std::collections::BTreeSet<String>> = crate::w1::load_supported("/verif/baselines/w1_supported.txt"); }
 
-fn generated_program(rng: &mut Rng, with_assignments: bool) -> String {
+pub fn generated_program(rng: &mut Rng, with_assignments: bool) -> String {
   use crate::w1::{gen, model};
   let mut knobs = gen::draw_knobs(rng, "C05");
   knobs.fault_pm = 0;
@@ -83,7 +83,7 @@ fn generated_program(rng: &mut Rng, with_assignments: bool) -> String {
 
 /// Small programs whose re-evaluation really moves state (each step recomputes derived values
 /// from a variable that an assignment or op-assignment of the same plan then changes).
-fn template_program(rng: &mut Rng) -> (String, String) {
+pub fn template_program(rng: &mut Rng) -> (String, String) {
   let a = 1 + rng.below(9); let b = 2 + rng.below(5); let c = 1 + rng.below(4);
   match rng.below(10) {
     0 => ("template-scalar-chain".into(), format!("~x := {a}\ny := x * {b}\nx = x + {c}\nz := y - x")),
@@ -102,7 +102,7 @@ fn template_program(rng: &mut Rng) -> (String, String) {
 /// Relational and set programs with several rows/elements on each side: the steps that build
 /// their output from hash-based bookkeeping only show an order dependence when more than one
 /// row/element is involved (the suite's join tests leave exactly one unmatched row).
-fn relational_program(rng: &mut Rng) -> (String, String) {
+pub fn relational_program(rng: &mut Rng) -> (String, String) {
   let mut ids = |rng: &mut Rng| -> Vec<u64> { let mut v: Vec<u64> = (1..=9).collect(); rng.shuffle(&mut v); let n = 1 + rng.usize(6); let mut v: Vec<u64> = v[..n].to_vec(); if rng.chance(1, 2) { v.sort(); } v };
   match rng.below(4) {
     0 | 1 | 2 => {
